@@ -623,13 +623,27 @@ namespace sim
 			// +----+------+------+----------+----------+----------+
 
 			char const* buf = m_udp_buffer.data();
+
+			// a datagram too short to hold the header it announces is dropped
+			std::size_t const header_size = bytes_transferred < 4 ? 4
+				: buf[3] == 1 ? 10
+				: buf[3] == 3 ? (bytes_transferred < 5 ? 5 : 5 + std::uint8_t(buf[4]) + 2)
+				: 4;
+			if (bytes_transferred < header_size)
+			{
+				std::printf("truncated UDP ASSOCIATE header, dropping datagram\n");
+				m_udp_associate.async_receive_from(boost::asio::buffer(m_udp_buffer)
+					, m_udp_from, 0, std::bind(&socks_connection::on_read_udp, this, std::placeholders::_1, std::placeholders::_2));
+				return;
+			}
+
 			if (buf[2] != 0) std::printf("fragment != 0, not supported\n");
 
 			int const atyp = buf[3];
 			if (atyp == 3)
 			{
 				// hostname
-				int const len = buf[4];
+				int const len = std::uint8_t(buf[4]);
 
 				buf += 5;
 				bytes_transferred -= 5;
